@@ -30,6 +30,15 @@ def rand_atom(rng, names, regs, env_vals, decls):
             b = ["c", 0]
         if rng.random() < 0.25:
             a = [rng.choice(["+", "-", "&"]), a, exprs.rand_leaf(rng, names, regs)]
+        elif a[0] == "r" and a[1] in ("sr", "sw") and rng.random() < 0.6:
+            # the negative / the absolute value of a register is compared - the register itself is read again by later atoms and
+            # statements and must still hold its value
+            reg = a
+            a = [rng.choice(["neg", "abs"]), a]
+            if rng.random() < 0.6:
+                # ... and the same register is tested for its sign right afterwards, in the same condition
+                first = [rng.choice(CMP), a, rng.choice([b, ["c", 10 ** 6], ["c", -10 ** 6]])]
+                return [rng.choice(["or", "and"]), first, [rng.choice(["<", ">=", ">", "<="]), reg, ["c", 0]]]
         return [rng.choice(CMP), a, b]
     if kind < 0.85:
         # bit test: expr & mask (true iff non-zero)
